@@ -21,6 +21,7 @@ import SccacheModel.Driver.Config
 import SccacheModel.Driver.RustArgs
 import SccacheModel.Driver.RustKey
 import SccacheModel.Driver.Shutdown
+import SccacheModel.Driver.AtFile
 
 /-- `modeld <model>`: line-protocol driver, one sub-command per executable model (DESIGN.md C.1) -/
 def main (args : List String) : IO UInt32 := do
@@ -49,4 +50,5 @@ def main (args : List String) : IO UInt32 := do
   | ["rustargs"] => DrvRustArgs.main *> pure 0
   | ["rustkey"] => DrvRustKey.main *> pure 0
   | ["shutdown"] => DrvShutdown.main *> pure 0
+  | ["atfile"] => DrvAtFile.main *> pure 0
   | _ => do IO.eprintln "usage: modeld <model>"; pure 2
